@@ -601,6 +601,12 @@ def train_classifier(prop):
             if flags.get("DIMS") == "0":
                 bad = (bad or "") + " DIMS=0"
             if bad:
+                # the signatures of F19 / F20 are read off the MODEL's files (the image of the trained model as the Lean model
+                # computes it), not off the implementation's: a defect that makes the implementation write such rows must not
+                # be able to claim the known finding for itself
+                mf = _model_file_flags(mobs)
+                if mf is not None:
+                    flags = dict(flags, **mf)
                 if flags.get("EMPTYCLASS") == "1":
                     info["prop_fail"] = "empty-class-row-read-as-bos-eos"
                 elif flags.get("STAR") == "1":
@@ -618,6 +624,20 @@ def train_classifier(prop):
                 info["why"] = "connection cost from the bigram files differs from matrix.def by more than K+1 (or the bigram files do not compile): " + bad
         return info
     return classify
+
+
+def _model_file_flags(mobs):
+    """EMPTYCLASS / STAR of a `GEN` observation `ok <lex> <matrix> <unk> <user> <left> <right> <cost>` (hex, `-` = empty)."""
+    t = mobs.split()
+    if len(t) < 8 or t[0] != "ok":
+        return None
+    try:
+        left, right, cost = (bytes.fromhex(x) if x != "-" else b"" for x in t[5:8])
+    except ValueError:
+        return None
+    empty = any(l.endswith(b"\t") for f in (left, right) for l in f.split(b"\n"))
+    star = any(l.split(b"\t")[0].startswith(b"*/") or l.split(b"\t")[0].endswith(b"/*") for l in cost.split(b"\n") if l)
+    return {"EMPTYCLASS": "1" if empty else "0", "STAR": "1" if star else "0"}
 
 
 def train_streams(prop, nq, nt):
